@@ -21,6 +21,17 @@ FL = "verde.base.base_classes.BaseGridder.filter"
 TRIPLE = ("tuple", (("param", "coordinates"), ("param", "data"), ("param", "weights")))
 
 
+def by_name(ctx, it):
+    """the iterable is derived from self.named_steps, and that property is a dict keyed by the step names (duplicates collapse)"""
+    if not any(x == Q.self_attr("named_steps") for x in walk(it)):
+        return False
+    f = ctx.pkg.find_method("verde.chain.Chain", "named_steps")
+    if f is None:
+        return False
+    rets = [p.value for p in ctx.paths(f.qual) if p.exit == "return"]
+    return bool(rets) and all(v[0] == "dict" or (v[0] == "call" and callee(v) == "builtins.dict") or v[0] == "comp" for v in rets)
+
+
 def r1_threading(ctx):
     qn = CF
     n = 0
@@ -36,8 +47,8 @@ def r1_threading(ctx):
         recv = c[1][1]
         loops = [e for e in p.events if e.kind == "loop-enter"]
         it = loops[0].data[1] if loops else None
-        ctx.check("R1", qn + "|iterates-all-steps", True if it == Q.self_attr("steps") else (False if it is not None and it[0] == "sub" and it[1] == Q.self_attr("steps") else None),
-                  "the loop runs over all of self.steps", bad="the loop runs over %s" % (show(it) if it else None), fn=qn)
+        ctx.check("R1", qn + "|iterates-all-steps", True if it == Q.self_attr("steps") else (False if it is not None and ((it[0] == "sub" and it[1] == Q.self_attr("steps")) or by_name(ctx, it)) else None),
+                  "the loop runs over all of self.steps", bad="the loop runs over %s%s" % (show(it) if it else None, ": steps that share a name collapse to one" if it is not None and by_name(ctx, it) else ""), fn=qn)
         ctx.check("R1", qn + "|filter-on-the-step", True if recv[0] == "sub" and recv[1][0] == "elem" and recv[1][1] == it and recv[2] == const(1) else None, "filter is called on the step object (name, step)[1]", fn=qn)
         a = c[2]
         ok, why = None, ""
@@ -49,11 +60,43 @@ def r1_threading(ctx):
             ok, why = False, "every step filters the original (coordinates, data, weights): residuals are not passed on"
         elif a and all(x[0] == "param" for x in a):
             ok, why = False, "filter receives %s" % show(("tuple", a))
+        explicit = len(a) == 3 and all(x[0] == "prev" for x in a)
+        if explicit:
+            # the same threading written with three separately carried variables
+            inits = tuple(x[3] for x in a)
+            ok = True if inits == TRIPLE[1] else (False if set(inits) == set(TRIPLE[1]) else None)
+            why = "the carried variables start as %s" % show(("tuple", inits))
         ctx.check("R1", qn + "|threads-previous-result", ok, "filter receives the loop-carried tuple, initially (coordinates, data, weights)", bad=why, fn=qn)
         # the carried variable's next value is this call's result
         nxt = [v for k, v in p.env.items() if isinstance(v, tuple) and v and v[0] == "mu" and v[4] == c]
-        ctx.check("R1", qn + "|next-is-filter-result", True if nxt else (False if len(a) == 1 and a[0][0] == "star" and a[0][1][0] == "prev" and not nxt else None),
-                  "the tuple carried to the next step is this step's filter result", bad="the filter result is discarded", fn=qn)
+        okn, whyn = True if nxt else (False if len(a) == 1 and a[0][0] == "star" and a[0][1][0] == "prev" and not nxt else None), "the filter result is discarded"
+        if explicit:
+            okn = True
+            for k, x in enumerate(a):
+                mu = [v for v in p.env.values() if isinstance(v, tuple) and v and v[0] == "mu" and v[2] == x[2] and v[1] == x[1]]
+                nv = mu[0][4] if mu else None
+                if nv == Q.sub(c, k):
+                    continue
+                if nv is None:
+                    okn, whyn = False, "%s is not updated from the filter result: every step sees the original %s" % (x[2], x[2])
+                    break
+                if k == 2 and nv == NONE:
+                    # a filter that returns no weights (BlockReduce) ends the weights - but only when it really returned two values
+                    short = lookup(p.decided, ("cmp", ">", ("call", ("glob", "builtins.len"), (c,), (), 0), const(2))) is False \
+                        or lookup(p.decided, ("cmp", "==", ("call", ("glob", "builtins.len"), (c,), (), 0), const(2))) is True
+                    if not short:
+                        okn, whyn = False, ("the weights returned by a step are replaced by None on a path that does not establish that the step returned only "
+                                            "(coordinates, data): weights produced by a step (BlockMean uncertainty) are lost when fit was given none")
+                        break
+                    continue
+                if k == 2 and nv[0] == "ifexp" and nv[1] == ("cmp", ">", ("call", ("glob", "builtins.len"), (c,), (), 0), const(2)) and nv[2] == Q.sub(c, 2) and nv[3] == NONE:
+                    continue
+                if nv[0] == "sub" and nv[1] == c and is_const(nv[2]):
+                    okn, whyn = False, "%s is updated from element %s of the filter result instead of element %d" % (x[2], show(nv[2]), k)
+                    break
+                if okn is True:
+                    okn = None
+        ctx.check("R1", qn + "|next-is-filter-result", okn, "the tuple carried to the next step is this step's filter result", bad=whyn, fn=qn)
     if not n:
         ctx.add("R1", qn + "|paths", "UNDECIDED", "no normal path with a filter call", fn=qn)
     for p in ctx.paths(qn):
@@ -87,8 +130,8 @@ def r2_sum(ctx):
         tag = ",".join("%s" % v for _c, v in p.conds)
         loops = [e for e in p.events if e.kind == "loop-enter"]
         it = loops[0].data[1] if loops else None
-        ctx.check("R2", qn + "|iterates-all-steps", True if it == Q.self_attr("steps") else (False if it is not None and it[0] == "sub" else None), "the loop runs over all of self.steps",
-                  bad="the loop runs over %s: some steps do not contribute" % (show(it) if it else None), fn=qn)
+        ctx.check("R2", qn + "|iterates-all-steps", True if it == Q.self_attr("steps") else (False if it is not None and (it[0] == "sub" or by_name(ctx, it)) else None), "the loop runs over all of self.steps",
+                  bad="the loop runs over %s: %s" % (show(it) if it else None, "steps that share a name collapse to one (named_steps is a dict keyed by name)" if it is not None and by_name(ctx, it) else "some steps do not contribute"), fn=qn)
         i0, e0 = pr[0]
         step = e0.data[0][1][1]
         guard = [(i, e) for i, e in enumerate(p.events) if e.kind == "cond" and e.data[0][0] == "call" and callee(e.data[0]) == "builtins.hasattr" and e.data[0][2] == (step, const("predict")) and e.data[1] is True]
@@ -197,6 +240,15 @@ def r4_filter(ctx):
         if r[0] == "sub" and r[2] == const(0):
             r = Q.unseq(r[1])
         ok, why = None, ""
+        # the residuals must keep what the subtraction produced: a conversion to the data's dtype (or a fixed small dtype)
+        # truncates the fractional residuals of integer data, and the next step then fits the wrong numbers
+        casts = Q.narrowing_casts(r)
+        lossy = [c for c, k in casts if k in ("narrowing", "integer")]
+        ctx.check("R4", "%s|residuals-not-narrowed|%s" % (qn, tag), False if lossy else (None if casts else True), "the residuals are returned in the dtype the subtraction produced",
+                  bad="the residuals are converted with %s: for integer (or lower-precision) data they are truncated, so data != prediction + residual" % (show(lossy[0])[:90] if lossy else ""),
+                  fn=qn, undecided="conversion of the residuals cannot be classified")
+        if r[0] == "comp" and Q.cast_of(r[2]) is not None:
+            r = (r[0], r[1], Q.cast_of(r[2])[0]) + tuple(r[3:])
         if r[0] == "comp" and r[2][0] == "binop":
             op, a, b = r[2][1], r[2][2], r[2][3]
 
